@@ -1006,22 +1006,52 @@ func (c *Ctx) stageRace(refs map[refKey]*Ref, keys []refKey) {
 		}
 	}
 	c.Ev.Probes["race_documents_touching_locked_state"] = len(lockers)
+	var sharers []refKey // documents with a user stylesheet shared inside a group
+	for _, k := range small {
+		if refs[k].Sc.Expect.Group != "" && len(refs[k].Sc.UserCSS) > 0 {
+			sharers = append(sharers, k)
+		}
+	}
 	pool := NewPool(c.Build.RaceWorker, c.Pool.args, []string{"GORACE=halt_on_error=1 exitcode=66"}, 4, 300*time.Second)
 	var specs []*Spec
 	for i := 0; i < rounds; i++ {
 		sp := &Spec{ID: fmt.Sprintf("race/%d", i), Order: OrderPlan{Mode: "canon"}, Free: true}
 		nt := 4 + rng.Intn(5)
 		shared := rng.Intn(2) == 0
+		sharedGroup := ""
 		for t := 0; t < nt; t++ {
 			k := small[rng.Intn(len(small))]
-			if len(lockers) > 0 && t < 3 && i%3 != 2 {
+			if len(lockers) > 0 && t < 3 && i%3 != 2 && !shared {
 				k = lockers[rng.Intn(len(lockers))]
 			}
 			ops := docOps(refs[k].Sc, refs[k].Cfg, "", false)
 			sc := refs[k].Sc
-			if shared && sc.Expect.Group != "" && len(sc.UserCSS) > 0 && len(sp.Shared) == 0 {
-				for x, f := range sc.UserCSS {
-					sp.Shared = append(sp.Shared, Op{Op: "css", ID: fmt.Sprintf("S%d", x), Scenario: sc.Name, File: f})
+			if shared && t < 4 && len(sharers) > 0 {
+				// ordinary server usage: ONE parsed user stylesheet used by several
+				// concurrent renders of documents of its group
+				k = sharers[rng.Intn(len(sharers))]
+				sc = refs[k].Sc
+				ops = docOps(sc, refs[k].Cfg, "", false)
+				if len(sp.Shared) == 0 {
+					sharedGroup = sc.Expect.Group
+					for x, f := range sc.UserCSS {
+						sp.Shared = append(sp.Shared, Op{Op: "css", ID: fmt.Sprintf("S%d", x), Scenario: sc.Name, File: f})
+					}
+				}
+				if sc.Expect.Group == sharedGroup {
+					var kept []Op
+					for _, o := range ops {
+						if o.Op == "css" {
+							continue
+						}
+						if o.Op == "render" {
+							for x := range o.CSS {
+								o.CSS[x] = fmt.Sprintf("S%d", x)
+							}
+						}
+						kept = append(kept, o)
+					}
+					ops = kept
 				}
 			}
 			sp.Tasks = append(sp.Tasks, ops)
